@@ -201,6 +201,11 @@ Fixpoint mk_from (i : nat) (bs : list backend) (seen : list scheme) (T : tables)
 
 Definition mk_backends (P : list backend) : res kind tables := mk_from 0 P [] empty_tables.
 
+(* the Backends list itself: the backends whose start-up information could be fetched;
+   Core.get_uri_schemes() chains their uri_schemes *)
+Definition live_schemes (bs : list backend) : list scheme :=
+  flat_map (fun b => if b_info_ok b then b_schemes b else []) bs.
+
 (* ------------------------------------------------------------------ calling a backend *)
 
 Definition ans (P : list backend) (b : nat) (m : meth) (a : arg) : resp :=
@@ -682,7 +687,8 @@ Inductive op :=
 | OGetVolume
 | OSetVolume (v : Z)
 | OGetMute
-| OSetMute (m : bool).
+| OSetMute (m : bool)
+| OCoreSchemes.
 
 Definition run_op (T : tables) (P : list backend) (mx : option mixer) (o : op) : obs :=
   match o with
@@ -705,6 +711,7 @@ Definition run_op (T : tables) (P : list backend) (mx : option mixer) (o : op) :
   | OSetVolume v => set_volume mx v
   | OGetMute => get_mute mx
   | OSetMute m => set_mute mx m
+  | OCoreSchemes => ([], Ok (VSchemes (live_schemes P)))     (* Core.get_uri_schemes, core/actor.py *)
   end.
 
 (* start-up (Backends construction) followed by one request *)
